@@ -15,6 +15,11 @@
 
 //! This module is for parallel encoding. Only compiled when "par" feature is enabled.
 
+// Verification hook: under the loom build, `std` and `crossbeam_channel` below
+// resolve to the stand-ins in `verif_sync` (no other line of this file changes).
+#[cfg(all(flacenc_verif, flacenc_verif_loom))]
+use crate::verif_sync::{crossbeam_channel, std};
+
 use std::collections::BTreeMap;
 use std::num::NonZeroUsize;
 use std::sync::Arc;
